@@ -8,7 +8,7 @@ from dataclasses import dataclass, field
 from typing import Dict, List, Optional
 
 from .model import AnalysisError, Func, own_nodes, unparse
-from .rows import RowStore, collect_row_stores
+from .rows import KeyStore, RowStore, collect_row_stores
 from .values import Env, Instance, Val, ValSet, texts, vs
 
 BALANCER = "synrbl.balancing.Balancer"
@@ -25,10 +25,16 @@ class Stage:
     attr: str  # Balancer attribute holding the stage object ('' for functions / own methods)
     params: Dict[str, ValSet]
     stores: List[RowStore] = field(default_factory=list)
+    frame_stores: list = field(default_factory=list)
+    env: Optional[Env] = None
     rows_rebound: bool = False  # ``reactions = stage(reactions, ...)``
+
+    inline: bool = False
 
     @property
     def label(self) -> str:
+        if self.inline:
+            return "<inline line %d>" % self.stmt.lineno
         if self.attr:
             return "%s.%s" % (self.attr, self.callee.name)
         return self.callee.name
@@ -96,7 +102,23 @@ class Pipeline:
         body = f.node.body
         rows_names = {self.rows_param}
         idx = 0
+        from .rows import RowFlow
+
+        inline_flow = RowFlow(ctx.ev, f, self.env, {self.rows_param})
+        inline_stores = inline_flow.stores()
         for stmt in body:
+            # row stores written directly in the pipeline function form a pseudo stage
+            mine = [s for s in inline_stores if any(n is s.node for n in ast.walk(stmt))]
+            if mine:
+                fake = ast.Call(func=ast.Name(id="<inline>", ctx=ast.Load()), args=[], keywords=[])
+                ast.copy_location(fake, stmt)
+                st = Stage(index=idx, call=fake, stmt=stmt, callee=f, inst=self.balancer, attr="", params={})
+                st.stores = mine
+                st.inline = True
+                for s in mine:
+                    s.via = [f.qualname]
+                self.stages.append(st)
+                idx += 1
             # only top-level straight-line statements form the stage sequence;
             # calls nested in `if stats is not None` etc. are looked at too
             for call in _calls_in_stmt(stmt):
@@ -137,6 +159,19 @@ class Pipeline:
                         containers.add(k.arg)
                 st = Stage(index=idx, call=call, stmt=stmt, callee=callee, inst=inst, attr=attr, params=params)
                 st.stores = collect_row_stores(ctx, callee, cenv, containers, depth=3)
+                st.env = cenv
+                # subscript stores of the stage function that are not row
+                # stores (DataFrame column assignments in preprocess)
+                row_nodes = {id(x.node) for x in st.stores}
+                for n in own_nodes(callee.node):
+                    tv = []
+                    if isinstance(n, ast.Assign):
+                        tv = [(t, n.value, "assign") for t in n.targets]
+                    elif isinstance(n, ast.AugAssign):
+                        tv = [(n.target, n.value, "aug")]
+                    for t, v, kind in tv:
+                        if isinstance(t, ast.Subscript) and not isinstance(t.slice, ast.Slice) and id(n) not in row_nodes:
+                            st.frame_stores.append(KeyStore(callee, n, t, ctx.ev.eval(t.slice, cenv), v, kind))
                 if isinstance(stmt, ast.Assign) and any(isinstance(t, ast.Name) and t.id in rows_names for t in stmt.targets):
                     st.rows_rebound = True
                 self.stages.append(st)
